@@ -348,8 +348,20 @@ func emit(w *hx.Writer, kind, id, coq string, desc map[string]any) {
 	w.Emit(kind, hx.Case{ID: id, Coq: coq, Desc: desc, FKey: kind})
 }
 
+// guarded runs the code under test; a panic becomes a CPanic case.
+func guarded(w *hx.Writer, id, a, b string, f func()) bool {
+	if p := hx.Recover(f); p != nil {
+		emit(w, "panic", id, hx.App("CPanic", hx.Str(a), hx.Str(b)), map[string]any{"in": a, "in2": b, "panic": fmt.Sprint(p)})
+		return false
+	}
+	return true
+}
+
 func runTrim(w *hx.Writer, id, s string) {
-	out := upstream.VerifTryTrimIpv6Brackets(s)
+	var out string
+	if !guarded(w, id, s, "", func() { out = upstream.VerifTryTrimIpv6Brackets(s) }) {
+		return
+	}
 	emit(w, "trim", id, hx.App("CTrim", hx.Str(s), hx.Str(out)), map[string]any{"in": s, "out": out})
 }
 
@@ -388,18 +400,31 @@ func runURL(w *hx.Writer, id, s string) {
 }
 
 func runSplit(w *hx.Writer, id string, s inp) {
-	h, p, err := upstream.VerifTrySplitHostPort(s.str())
+	var h string
+	var p uint16
+	var err error
+	if !guarded(w, id, s.str(), "", func() { h, p, err = upstream.VerifTrySplitHostPort(s.str()) }) {
+		return
+	}
 	emit(w, "split", id, hx.App("CSplit", s.coq(), hostPortObs(h, p, err)),
 		map[string]any{"in": s.str(), "host": h, "port": p, "ok": err == nil})
 }
 
 func runRemove(w *hx.Writer, id string, s inp) {
-	out := upstream.VerifTryRemovePort(s.str())
+	var out string
+	if !guarded(w, id, s.str(), "", func() { out = upstream.VerifTryRemovePort(s.str()) }) {
+		return
+	}
 	emit(w, "remove-port", id, hx.App("CRemove", s.coq(), hx.Str(out)), map[string]any{"in": s.str(), "out": out})
 }
 
 func runParse(w *hx.Writer, id string, u, d inp, def uint16) {
-	h, p, err := upstream.VerifParseDialAddr(u.str(), d.str(), def)
+	var h string
+	var p uint16
+	var err error
+	if !guarded(w, id, u.str(), d.str(), func() { h, p, err = upstream.VerifParseDialAddr(u.str(), d.str(), def) }) {
+		return
+	}
 	emit(w, "parse-dial-addr", id, hx.App("CParse", u.coq(), d.coq(), hx.Ni(int(def)), hostPortObs(h, p, err)),
 		map[string]any{"url_host": u.str(), "dial_addr": d.str(), "default": def, "host": h, "port": p, "ok": err == nil})
 }
@@ -410,15 +435,14 @@ func runNew(w *hx.Writer, id string, u uin, socks bool) {
 		opt.Socks5 = "127.0.0.1:1" // never dialled: nothing is exchanged
 	}
 	var ok bool
-	if p := hx.Recover(func() {
+	if !guarded(w, id, u.addrStr(), u.dialStr(), func() {
 		up, err := upstream.NewUpstream(u.addrStr(), opt)
 		ok = err == nil
 		if err == nil {
 			up.Close()
 		}
-	}); p != nil {
-		fmt.Fprintf(os.Stderr, "c18: NewUpstream(%q) panicked: %v\n", u.addrStr(), p)
-		os.Exit(3)
+	}) {
+		return
 	}
 	emit(w, "new", id, hx.App("CNew", u.coq(), hx.Bool(socks), hx.Bool(ok)),
 		map[string]any{"addr": u.addrStr(), "dial_addr": u.dialStr(), "socks5": socks, "created": ok})
@@ -874,8 +898,9 @@ func runNet(w *hx.Writer, id string, ns netSpec) bool {
 		cancel()
 		up.Close()
 	}); p != nil {
-		fmt.Fprintf(os.Stderr, "c18: network case %s panicked: %v\n", id, p)
-		os.Exit(3)
+		emit(w, "panic", id, hx.App("CPanic", hx.Str(u.addrStr()), hx.Str(u.dialStr())),
+			map[string]any{"in": u.addrStr(), "in2": u.dialStr(), "panic": fmt.Sprint(p)})
+		return true
 	}
 	for i := len(closers) - 1; i >= 0; i-- {
 		closers[i]()
